@@ -116,44 +116,48 @@ structure EnumDef where
   variants : List VariantSyn
   deriving Repr, DecidableEq, Inhabited
 
-def bitenumCheck (e : EnumSyn) : Except Reject EnumDef := do
-  let config ← Config.parseAll e.args {}
+/-- `bitenum()` after the attribute arguments have been parsed: the three checks and the storage type
+    (written with explicit matches, in the order of the Rust code) -/
+def bitenumCore (config : Config) (variants : List VariantSyn) : Except Reject EnumDef :=
   -- Config::explicit
-  let bits ← (match config.explicitBits with
-    | some b => .ok b | none => .error (.error "Missing the storage type") : Except Reject Bits)
+  match config.explicitBits with
+  | none => .error (.error "Missing the storage type")
+  | some bits =>
   let exhaustive := config.explicitExhaustive.getD .fls
   -- check_explicit_conditional
-  if e.variants.any (·.hasCfg) && exhaustive ≠ .conditional then
+  if variants.any (·.hasCfg) = true ∧ exhaustive ≠ .conditional then
     .error (.error "The enum contains at least one variant with a '#[cfg(…)]' attribute")
-  else
-  -- check_explicit_exhaustive
-  if bits.size ≥ 128 then .error (.macroPanic "attempt to shift left with overflow") else
-  let maxCount := 2 ^ bits.size
-  let count := e.variants.length
-  if count > maxCount ∧ exhaustive ≠ .conditional then
+  -- check_explicit_exhaustive: `1_u128 << size`
+  else if bits.size ≥ 128 then .error (.macroPanic "attempt to shift left with overflow")
+  else if variants.length > 2 ^ bits.size ∧ exhaustive ≠ .conditional then
     .error (.error "The enum has more variants than can be stored in the provided storage type")
-  else
-  let actuallyExhaustive := decide (count = maxCount)
-  if !exhaustive.matches actuallyExhaustive then
-    .error (.error (if actuallyExhaustive then "it is exhaustive" else "it would need more variants to be exhaustive"))
-  else do
-  let m ← maxDiscr e.variants 0
-  if m ≥ maxCount then .error (.error "The largest discriminant value is larger than can be stored") else
-  let baseType ← bits.baseType
+  else if exhaustive.matches (decide (variants.length = 2 ^ bits.size)) = false then
+    .error (.error "exhaustive claim does not match the number of variants")
+  else match maxDiscr variants 0 with
+  | .error r => .error r
+  | .ok m =>
+  if m ≥ 2 ^ bits.size then .error (.error "The largest discriminant value is larger than can be stored")
+  else match bits.baseType with
+  | .error r => .error r
+  | .ok baseType =>
   -- a non-ident path to an arbitrary-int type yields an expansion that does not type-check
-  if !bits.isIdent ∧ !(bits.size == 8 || bits.size == 16 || bits.size == 32 || bits.size == 64) then
+  if bits.isIdent = false ∧ (bits.size == 8 || bits.size == 16 || bits.size == 32 || bits.size == 64) = false then
     .error (.error "ill-typed expansion: raw_value() returns the native type for a qualified arbitrary-int path")
-  else
-  .ok { bits := bits, baseType := baseType, exhaustive := exhaustive, variants := e.variants }
+  else .ok { bits := bits, baseType := baseType, exhaustive := exhaustive, variants := variants }
+
+def bitenumCheck (e : EnumSyn) : Except Reject EnumDef := do
+  let config ← Config.parseAll e.args {}
+  bitenumCore config e.variants
 
 /-! ### the generated conversions -/
 
 /-- the variants that survive rustc's cfg-stripping, with their discriminants -/
-def EnumDef.active (d : EnumDef) : List (String × Nat) :=
-  d.variants.filterMap fun v =>
-    match v.discr with
-    | .lit n => if v.cfgActive then some (v.name, n) else none
-    | _ => none
+def VariantSyn.activeEntry (v : VariantSyn) : Option (String × Nat) :=
+  match v.discr with
+  | .lit n => if !v.hasCfg || v.cfgActive then some (v.name, n) else none
+  | _ => none
+
+def EnumDef.active (d : EnumDef) : List (String × Nat) := d.variants.filterMap VariantSyn.activeEntry
 
 /-- `non_exhaustive = config.exhaustive.matches(false)` -/
 def EnumDef.nonExhaustive (d : EnumDef) : Bool := d.exhaustive.matches false
